@@ -17,7 +17,9 @@ TRICKY = ['T154N-R97W Section: NE/4', 'Section NE/4 T154N-R97W', 'T154N-R97W Sec
           'Sec 14', 'Sec 14:', 'T154N-R97WSec 14: NE/4', 'Sec 14T154N-R97W', 'T154N-R97W Sec 100: NE/4', 'T154N-R97W Sec 000: Lot 0', 'T0N-R0W Sec 0: ALL',
           'T154N-R9oW Sec 14: NE/4', 'T1S4N-RlOW Sec I4: NE/4', 'Lots 5 - 1(40)', 'Lot 1 through', 'N/2 of', 'Section 4 of T154N-R97W: NE/4',
           'Sections 4 - 6 of Township 154 North, Range 97 West', 'T154N-R97W Sec 14: ' + 'NE/4 ' * 20, '§§§ 14', 'T154N-R97W\x0bSec\x1c14:\x85NE/4',
-          'Township ١٥٤ North, Range ٩٧ West Sec ١٤', 'Sec 14 thru', 'Sec 5 - 5: NE/4 T154N-R97W', 'Lots 1 - 400', 'Sec 999 - 990 T1N-R1W']
+          'Township ١٥٤ North, Range ٩٧ West Sec ١٤', 'Sec 14 thru', 'Sec 5 - 5: NE/4 T154N-R97W', 'Lots 1 - 400', 'Sec 999 - 990 T1N-R1W',
+          'Lot 4(40.12), Lot 4(40.12), S/2NW/4', 'Lots 1(38.29), 2(40.00) and 1(38.30)', 'T154N-R97W Sec 14: Lot 1(40), Lot 1(41)', 'Lot 1(40), NE/4, Lot 1(40)',
+          'Lots 3 - 1(40), 2(39.5)', 'N/2 of Lot 1(40), N/2 of Lot 1(40)', 'T154N-R97W of Section 14: NE/4', 'T154N-R97W in said Section 14 NE/4']
 
 
 def rand_config(r):
@@ -58,6 +60,10 @@ def run(tier, mode):
     for _ in range(n):
         k = r.random()
         texts.append(G.soup(r, 8) if k < 0.4 else G.damage(r, G.structured_desc(r)) if k < 0.8 else G.any_text(r))
+    for _ in range(n // 10):   # lot lists with acreages, duplicates included (the duplicate-acreage bookkeeping of LotUnpacker)
+        lots = [r.randint(1, 4) for _ in range(r.randint(2, 5))]
+        texts.append(r.choice(['', 'T154N-R97W Sec 14: ']) + r.choice([', ', ' and ', '; ']).join(
+            f'{r.choice(["Lot", "Lots", "N/2 of Lot"])} {x}' + (f'({r.choice(["40", "38.29", "40.00", "0"])})' if r.random() < 0.7 else '') for x in lots))
     for i, t in enumerate(texts):
         for cfg in ([''] + [rand_config(r) for _ in range(3)] if i < len(TRICKY) else [rand_config(r)]):
             n_or += 1
@@ -80,7 +86,7 @@ def run(tier, mode):
                     n_or += 1
                     if isinstance(e, H.Exn):
                         fails.append({'kind': 'plssdesc_raises', 'detail': {'text': t, 'config': cfg, 'call': nm}, 'got': repr(e), 'want': 'no exception', 'known_id': None})
-        if i % 2 == 0:
+        if i % 2 == 0 or i < len(TRICKY) or i >= len(TRICKY) + n:
             tcfg = ','.join(x for x in rand_config(r).split(',') if x.split('.')[0] in ('clean_qq', 'suppress_lot_divs', 'break_halves', 'parse_qq', 'qq_depth', 'qq_depth_min', 'qq_depth_max', 'ocr_scrub', 'n', 's', 'e', 'w'))
             n_or += 1
             dist['tract'] += 1
